@@ -120,7 +120,13 @@ func VH_c19_bmp_roundtrip() {
 		g := c19bmpRT(m).Body.(*BMPTermination)
 		vAssert(len(g.Info) == 2, "termination lost or gained a TLV")
 	case 2:
-		m := NewBMPStatisticsReport(c19peerHeader(), []BMPStatsTLVInterface{NewBMPStatsTLV32(BMP_STAT_TYPE_REJECTED, vU32("v32")), NewBMPStatsTLV64(BMP_STAT_TYPE_ADJ_RIB_IN, vU64("v64")), NewBMPStatsTLVPerAfiSafi64(BMP_STAT_TYPE_PER_AFI_SAFI_ADJ_RIB_IN, vU16("afi"), vU8("safi"), vU64("v"))})
+		// every statistics type of RFC 7854 / RFC 8671, each in the counter format the RFC gives it
+		t32 := []uint16{BMP_STAT_TYPE_REJECTED, BMP_STAT_TYPE_DUPLICATE_PREFIX, BMP_STAT_TYPE_DUPLICATE_WITHDRAW, BMP_STAT_TYPE_INV_UPDATE_DUE_TO_CLUSTER_LIST_LOOP,
+			BMP_STAT_TYPE_INV_UPDATE_DUE_TO_AS_PATH_LOOP, BMP_STAT_TYPE_INV_UPDATE_DUE_TO_ORIGINATOR_ID, BMP_STAT_TYPE_INV_UPDATE_DUE_TO_AS_CONFED_LOOP,
+			BMP_STAT_TYPE_WITHDRAW_UPDATE, BMP_STAT_TYPE_WITHDRAW_PREFIX, BMP_STAT_TYPE_DUPLICATE_UPDATE}
+		t64 := []uint16{BMP_STAT_TYPE_ADJ_RIB_IN, BMP_STAT_TYPE_LOC_RIB, BMP_STAT_TYPE_ADJ_RIB_OUT_PRE_POLICY, BMP_STAT_TYPE_ADJ_RIB_OUT_POST_POLICY}
+		tAfi := []uint16{BMP_STAT_TYPE_PER_AFI_SAFI_ADJ_RIB_IN, BMP_STAT_TYPE_PER_AFI_SAFI_LOC_RIB, BMP_STAT_TYPE_PER_AFI_SAFI_ADJ_RIB_OUT_PRE_POLICY, BMP_STAT_TYPE_PER_AFI_SAFI_ADJ_RIB_OUT_POST_POLICY}
+		m := NewBMPStatisticsReport(c19peerHeader(), []BMPStatsTLVInterface{NewBMPStatsTLV32(t32[vChoice("stat32", len(t32))], vU32("v32")), NewBMPStatsTLV64(t64[vChoice("stat64", len(t64))], vU64("v64")), NewBMPStatsTLVPerAfiSafi64(tAfi[vChoice("stat_afi", len(tAfi))], vU16("afi"), vU8("safi"), vU64("v"))})
 		g := c19bmpRT(m).Body.(*BMPStatisticsReport)
 		vAssert(len(g.Stats) == 3, "statistics report lost or gained a counter")
 	case 3: // peer down, reasons without an embedded message and with TLVs (RFC 9069)
